@@ -1075,7 +1075,18 @@ func caseTx(o *out.Out, r *gen.Rand, c int) {
 			continue
 		}
 		step++
-		ores, _ := opSD(o, os, t)
+		ores, ofrom := opSD(o, os, t)
+		// the same *object* that already cached its sender under signer s must not serve it to another signer
+		var cfrom common.Address
+		var cerr error
+		if !catch(func() { types.Sender(s.real(), stx); cfrom, cerr = types.Sender(os.real(), stx) }) {
+			fresh := strings.HasPrefix(ores, "ok:") || ores == "other" && ofrom != (common.Address{})
+			if (cerr == nil) != fresh || (cerr == nil && cfrom != ofrom) {
+				o.Fail(step, "sender-cache-stale", fmt.Sprintf("Sender on a cached tx object under %s gives (%s, %v) but a fresh decode gives %s", os.tok(), cfrom.Hex(), cerr, ores))
+			}
+		} else {
+			o.Fail(step, "sender-panic", "types.Sender panicked on a cached tx object")
+		}
 		if protected {
 			if os.chain != nil && ores != "chainid" {
 				o.Fail(step, "chainid-not-bound", fmt.Sprintf("tx signed for %s under signer %s: %s (want ErrInvalidChainId)", s.tok(), os.tok(), ores))
